@@ -102,6 +102,13 @@ class Ranges:
         name = c["name"]
         if name in ("len",):
             return (0, LEN_MAX)
+        if name in ("from", "into") and len(t["args"]) == 1 and c.get("crate") in ("core", "std"):
+            # numeric From/Into = lossless widening cast
+            src = self.op_range(t["args"][0], depth + 1)
+            dst = ty_range(self.body.ty(t["dest"]["ty"])["s"])
+            if src is not None and dst is not None and src[0] >= dst[0] and src[1] <= dst[1]:
+                return src
+            return dst
         key = c.get("resolved") or c["key"]
         if key in self.const_returns:
             v = self.const_returns[key]
